@@ -159,3 +159,26 @@ Theorem C08_modelled_functions_are_the_source's :
   gen_src_apply_cumulative = src_apply_cumulative.
 Proof. exact (conj pin_cumulative_reduce pin_apply_cumulative). Qed.
 Print Assumptions C08_modelled_functions_are_the_source's.
+
+(* The floating-point side, bit for bit.  Model/CumFloat.v transcribes the cumulative kernels on float64 (sum / min / max, skip_na
+   on and off, masks, null codes) in Coq's primitive binary64 floats; C08's stream runs it inside Coq against the real functions.
+   For EVERY float64 input (NaN, infinities, any magnitude), every mask and both settings of skip_na: the cumulative sum written at
+   a kept row of group k is - as a bit pattern, not up to rounding - the single-pass group sum (Model/ReduceFloat.v, the model C04's
+   stream ties to _group_func_wrap) of the rows up to and including that row; and there is one output per row. *)
+From Coq Require Import PrimFloat.
+From GL Require Model.ReduceFloat Model.CumFloat Proofs.CumFloatProofs.
+Theorem C08_float_cumsum_is_the_running_group_sum sk rows i k x :
+  nth_error rows i = Some (k, x, true) -> (0 <= k)%Z ->
+  nth_error (CumFloat.cum_f CumFloat.CSum sk rows) i
+  = Some (fst (ReduceFloat.piece_reduce (CumFloatProofs.fr sk) k (CumFloatProofs.kept (firstn (S i) rows)))).
+Proof. exact (CumFloatProofs.cumsum_is_running_group_sum sk rows i k x). Qed.
+Theorem C08_float_one_output_per_row sk rows : length (CumFloat.cum_f CumFloat.CSum sk rows) = length rows.
+Proof. exact (CumFloatProofs.cum_one_output_per_row sk rows). Qed.
+Print Assumptions C08_float_cumsum_is_the_running_group_sum.
+Print Assumptions C08_float_one_output_per_row.
+Example C08_float_model_example :
+  CumFloat.check_cum (0%nat, true, [(0%Z, 1e16%float, true); (1%Z, 2%float, true); (0%Z, 1%float, true); ((-1)%Z, 5%float, true); (0%Z, nan, true);
+                                    (0%Z, (-1e16)%float, true); (1%Z, 7%float, false); (0%Z, 1%float, true)],
+                      [1e16; 2; 1e16; nan; 1e16; 0; 2; 1]%float) = true /\
+  nth_error [(0%Z, 1e16%float, true); (0%Z, 1%float, true)] 1 = Some (0%Z, 1%float, true).
+Proof. vm_compute. repeat split. Qed.
